@@ -22,6 +22,7 @@ func ksReplay(args []string) int {
 	spin := fs.Bool("spinlock", false, "use the spinlock implementation")
 	audit := fs.Bool("audit", true, "run the bookkeeping audit after each behaviour")
 	maxm := fs.Int("max-mismatch", 50, "stop after this many mismatches")
+	c19 := fs.Bool("c19", false, "after every step: bookkeeping audit and black-box recomputation of counters and access paths")
 	fs.Parse(args)
 	f, err := os.Open(*in)
 	if err != nil {
@@ -56,6 +57,20 @@ func ksReplay(args []string) int {
 				return
 			}
 			defer p.Close()
+			if *c19 {
+				cal, err := ks.Calibrate(p.A)
+				if err != nil {
+					mu.Lock()
+					if firstErr == nil {
+						firstErr = err
+					}
+					mu.Unlock()
+					for range jobs {
+					}
+					return
+				}
+				p.Cal = cal
+			}
 			st := ks.Stats{Ops: map[string]int{}}
 			for j := range jobs {
 				mu.Lock()
